@@ -6,6 +6,9 @@ import (
 	"fmt"
 	"math/rand"
 	"strings"
+	"sync"
+	"sync/atomic"
+	"time"
 
 	"github.com/miekg/dns"
 
@@ -16,6 +19,57 @@ import (
 
 func init() {
 	register("C13", "exploration", runC13, replayC13)
+	Workers["c13conc"] = c13ConcWorker
+}
+
+// c13ConcWorker: the hostile messages again, now from 16 goroutines at once against the same handlers (a handler
+// goroutine that dies with a fatal runtime error takes the whole server down: the parent sees the process die).
+func c13ConcWorker(args []string) int {
+	var seed int64 = 1
+	per := 2000
+	fmt.Sscan(args[0], &seed)
+	fmt.Sscan(args[1], &per)
+	w := c13World(seed, int(seed%7))
+	servers, err := openAll(w.Text(), harness.ServerOpts{Cache: seed%2 == 0})
+	if err != nil {
+		fmt.Println(err)
+		return 2
+	}
+	var wg sync.WaitGroup
+	var mu sync.Mutex
+	var viol []string
+	var msgs int64
+	for g := 0; g < 16; g++ {
+		wg.Add(1)
+		go func(g int) {
+			defer wg.Done()
+			rng := rand.New(rand.NewSource(seed*1000 + int64(g)))
+			for n := 0; n < per; n++ {
+				q, _ := gen.HostileMsg(rng, w.Owners)
+				if q == nil {
+					continue
+				}
+				tcp := rng.Intn(4) == 0
+				sv := servers.srv[rng.Intn(len(servers.srv))]
+				if n%64 == 0 {
+					journal("goroutine %d message %d on %s", g, n, sv.B.Name)
+				}
+				res := sv.Serve(q.Copy(), harness.NewWriter("10.1.0.5", tcp), 1+rng.Intn(8))
+				atomic.AddInt64(&msgs, 1)
+				if msg, _ := c13Check(q, res, tcp); msg != "" {
+					mu.Lock()
+					if len(viol) < 5 {
+						viol = append(viol, fmt.Sprintf("%s: %s; query: %s", sv.B.Name, msg, strings.ReplaceAll(q.String(), "\n", " | ")))
+					}
+					mu.Unlock()
+				}
+			}
+		}(g)
+	}
+	wg.Wait()
+	servers.close()
+	summary(map[string]interface{}{"messages": msgs, "violations": viol})
+	return 0
 }
 
 type c13Case struct {
@@ -123,7 +177,7 @@ func c13StripUnknown(q *dns.Msg) (*dns.Msg, bool) {
 }
 
 func runC13(r *report.Run) {
-	r.SetRule("seeded hostile but wire-valid messages (every message is packed and unpacked first): names incl. root, 63-byte labels, 255-byte names, escapes, wildcard labels and names of the loaded file; 24 qtypes incl. DS/ANY/OPT/AXFR/0/65535; 9 classes; opcodes and header bits; 0-3 questions; 0-3 OPT records, EDNS versions 0-255, UDP sizes 0-65535, DO, extended rcode, option lists with unknown codes and empty payloads, ECS family 0/1/2/3/65535 with any source/scope and host bits set; stray records. Sent over UDP and TCP writers to handlers loaded with generated files of every layout (incl. root zone, root delegation, TLD zone, empty file) on CDB, RocksDB v1 and v2. non-trivial = message that got a reply other than plain REFUSED, or that carries EDNS; distinct by wire bytes+database")
+	r.SetRule("seeded hostile but wire-valid messages (every message is packed and unpacked first): names incl. root, 63-byte labels, 255-byte names, escapes, wildcard labels and names of the loaded file; 24 qtypes incl. DS/ANY/OPT/AXFR/0/65535; 9 classes; opcodes and header bits; 0-3 questions; 0-3 OPT records, EDNS versions 0-255, UDP sizes 0-65535, DO, extended rcode, option lists with unknown codes and empty payloads, ECS family 0/1/2/3/65535 with any source/scope and host bits set; stray records. Sent over UDP and TCP writers to handlers loaded with generated files of every layout (incl. root zone, root delegation, TLD zone, empty file) on CDB, RocksDB v1 and v2. non-trivial = message that got a reply other than plain REFUSED, or that carries EDNS; distinct by wire bytes+database; one question in ten carries a type the DNS library has no mnemonic for; the same kind of messages is then sent from 16 goroutines at once to shared handlers in a child process (a fatal runtime error there is the violation)")
 	r.Assume("a query with several questions is answered for its first question (the repository's own TestDNSDBMultipleQuestions pins that); the unknown-option rule is checked by re-sending the query without private-use option codes and comparing the replies")
 	nworlds := r.Pick(20, 400)
 	perWorld := r.Pick(600, 1500)
@@ -201,6 +255,35 @@ func runC13(r *report.Run) {
 		servers.close()
 		if r.Violations() >= 15 {
 			break
+		}
+	}
+	// the same kind of messages from 16 goroutines at once, in a child process
+	for i := 0; i < r.Pick(2, 8); i++ {
+		res, err := runChild(false, "c13conc", []string{fmt.Sprint(r.Seed*10 + int64(i)), fmt.Sprint(r.Pick(1500, 6000))}, 15*time.Minute)
+		r.Eval(1)
+		if err != nil {
+			r.Inconclusive("concurrent child: " + err.Error())
+			continue
+		}
+		last := ""
+		if len(res.Journal) > 0 {
+			last = res.Journal[len(res.Journal)-1]
+		}
+		switch {
+		case res.TimedOut:
+			r.Inconclusive("concurrent child timed out at: " + last)
+		case res.Summary == nil:
+			r.Violation("", fmt.Sprintf("16 goroutines sending wire-valid messages: the server process died (exit %d) near %q:\n%s", res.ExitCode, last, firstLines(res.Stderr, 12)), map[string]interface{}{"concurrent_seed": r.Seed*10 + int64(i)})
+		default:
+			if n, ok := res.Summary["messages"].(float64); ok {
+				r.Count("messages_sent_concurrently", int64(n))
+			}
+			if vs, ok := res.Summary["violations"].([]interface{}); ok {
+				for _, v := range vs {
+					r.Violation("", fmt.Sprintf("concurrent phase: %v", v), map[string]interface{}{"concurrent_seed": r.Seed*10 + int64(i)})
+				}
+			}
+			r.Nontrivial(fmt.Sprintf("concurrent-%d", i))
 		}
 	}
 	if r.Thorough() {
